@@ -453,6 +453,39 @@ def gen_concurrent_clients(seed, nclients, nops):
     return progs
 
 
+HOLD_TIMEOUT_MS = 3000
+
+
+def gen_c07_hold_cases(seed, ncases):
+    """Slow commits: rounds of 1-4 non-idempotent commands (one per connection, own keys) whose commit
+    the held loop-back delays by a fraction 0.2 .. 0.95 of ProposalTimeout (lowered to 3 s of virtual
+    time), then reads of everything.  A command that was only slow must be in the log once."""
+    r = random.Random(seed * 433494437 + 7)
+    cases = []
+    fr = [0.2, 0.3, 0.4, 0.5, 0.6, 0.7, 0.8, 0.9, 0.95]
+    for i in range(ncases):
+        c = Case("c07h_%d_%d" % (seed, i))
+        keys = [[b"h%d:n" % k, b"h%d:s" % k, b"h%d:l" % k, b"h%d:set" % k, b"h%d:h" % k] for k in range(PAR_CONNS)]
+        for rd in range(r.randrange(1, 5)):
+            f = fr[(i + rd) % len(fr)] if rd == 0 else pick(r, fr + [0.0])
+            c.lines.append("H %d" % int(f * HOLD_TIMEOUT_MS))
+            for k in r.sample(range(PAR_CONNS), r.randrange(1, PAR_CONNS + 1)):
+                n, st, l, se, h = keys[k]
+                x = r.randrange(9)
+                cmd = ([b"incr", n] if x == 0 else [b"incrby", n, b"7"] if x == 1 else [b"append", st, b"ab"] if x == 2
+                       else [b"lpush", l, b"e%d" % rd] if x == 3 else [b"rpush", l, b"x", b"y"] if x == 4 else [b"lpop", l] if x == 5
+                       else [b"sadd", se, b"m%d" % rd, b"m"] if x == 6 else [b"hincrby", h, b"f", b"3"] if x == 7 else [b"decr", n])
+                c.cmd(cmd, conn=k)
+        c.lines.append("H 0")
+        for k in range(PAR_CONNS):
+            n, st, l, se, h = keys[k]
+            for cmd in ([b"get", n], [b"get", st], [b"lrange", l, b"0", b"-1"], [b"scard", se], [b"hget", h, b"f"]):
+                c.cmd(cmd, conn=k)
+        c.dump()
+        cases.append(c)
+    return cases
+
+
 TIMED = {b"expire", b"setex", b"ttl", b"blpop", b"brpop", b"persist"}
 
 
